@@ -16,6 +16,7 @@ func init() {
 
 func runC09(c *Ctx) {
 	L := c.L
+	c.checkSchemeSelection("scheme-selection")
 	L.Trusts("go/constant evaluation of the composite literals")
 	c.checkSubstMatrices()
 	c.checkBacktrackCounters()
